@@ -327,6 +327,17 @@ func matchCollectionName(sampleCollection, targetCollection string) (bool, bool)
 		db1 == cdcreader.AllDatabase || collection1 == cdcreader.AllCollection
 }
 
+// partialOverlap is true for two patterns that share collections while neither contains the other ("*.c" and "d.*")
+func partialOverlap(a, b string) bool {
+	d1, c1 := util.GetCollectionNameFromFull(a)
+	d2, c2 := util.GetCollectionNameFromFull(b)
+	overlap := (d1 == d2 || d1 == cdcreader.AllDatabase || d2 == cdcreader.AllDatabase) &&
+		(c1 == c2 || c1 == cdcreader.AllCollection || c2 == cdcreader.AllCollection)
+	ab, _ := matchCollectionName(a, b)
+	ba, _ := matchCollectionName(b, a)
+	return overlap && !ab && !ba
+}
+
 func (e *MetaCDC) checkDuplicateCollection(uKey string,
 	newCollectionNames []string,
 	extraInfo model.ExtraInfo,
@@ -352,6 +363,10 @@ func (e *MetaCDC) checkDuplicateCollection(uKey string,
 			for _, name := range names {
 				match, containAny := matchCollectionName(name, newCollectionName)
 				if match && containAny && !lo.Contains(e.collectionNames.excludeData[uKey], newCollectionName) {
+					duplicateCollections = append(duplicateCollections, newCollectionName)
+					break
+				}
+				if partialOverlap(name, newCollectionName) {
 					duplicateCollections = append(duplicateCollections, newCollectionName)
 					break
 				}
